@@ -51,7 +51,9 @@ type PNObs struct {
 	Note    string     `json:"-"`
 }
 
-var compString = map[string]string{"nul": "p\x00q", "long": strings.Repeat("l", 300)}
+// "ddsp" / "spdd": a dot-dot component padded with white space, "psp": the installed plugin's name with a trailing blank - ordinary
+// (if odd) single components as written; were white space trimmed anywhere on the way they would become ".." and "p"
+var compString = map[string]string{"nul": "p\x00q", "long": strings.Repeat("l", 300), "ddsp": ".. ", "spdd": "\t..", "psp": "p "}
 
 func concComp(c string) string {
 	if s, ok := compString[c]; ok {
@@ -64,6 +66,14 @@ func concComp(c string) string {
 		}
 	}
 	return c
+}
+
+func trimComps(name string) string {
+	cs := strings.Split(name, "/")
+	for i := range cs {
+		cs[i] = strings.TrimSpace(cs[i])
+	}
+	return strings.Join(cs, "/")
 }
 
 func concName(n AbsName) string {
@@ -195,6 +205,11 @@ func runPluginNames() int {
 		must(os.WriteFile(filepath.Join(root, "regular-file"), []byte("x"), 0644))
 		must(os.MkdirAll(filepath.Join(caseDir, "elsewhere", "notation-evil"), 0755))
 		_ = os.Symlink(filepath.Join(caseDir, "elsewhere"), filepath.Join(root, "symlinked"))
+		// sub-directories with legal but unusual names (leading dots, a blank, upper case), each with a sub-directory of its own:
+		// all of them are listed, nothing below them is
+		for _, dn := range []string{".hidden", "...", "with blank", "UPPER", "notation-inner"} {
+			must(os.MkdirAll(filepath.Join(root, dn, "inner-"+strings.Trim(dn, ".")), 0755))
+		}
 		// sentinels wherever the lexical model says the name could lead (directory and executable)
 		nameStr := concName(in.Name)
 		conc := func(loc []string) string {
@@ -217,6 +232,19 @@ func runPluginNames() int {
 			if os.MkdirAll(filepath.Dir(execPath), 0755) == nil {
 				nm := strings.TrimPrefix(base, "notation-")
 				_ = os.WriteFile(execPath, []byte(pluginScript(marker, nm, "9.9.9", "")), 0755)
+			}
+		}
+		// sentinels also where the name would lead were it normalised on the way (white space trimmed, letter case folded)
+		for _, twin := range []string{trimComps(nameStr), strings.ToLower(nameStr), strings.ToUpper(nameStr)} {
+			if twin == nameStr || strings.Contains(twin, "\x00") || len(twin) > 200 {
+				continue
+			}
+			tExec := filepath.Join(root, twin, "notation-"+twin)
+			if rel, err := filepath.Rel(caseDir, tExec); err != nil || strings.HasPrefix(rel, "..") {
+				continue
+			}
+			if _, err := os.Lstat(tExec); err != nil && os.MkdirAll(filepath.Dir(tExec), 0755) == nil {
+				_ = os.WriteFile(tExec, []byte(pluginScript(marker, filepath.Base(twin), "9.9.9", "")), 0755)
 			}
 		}
 		dirPath := conc(in.DirTarget)
@@ -244,8 +272,11 @@ func runPluginNames() int {
 			must(os.WriteFile(filepath.Join(top, "linktarget", "kept.txt"), []byte("not a plugin"), 0644))
 			must(os.Symlink(filepath.Join(top, "linktarget"), filepath.Join(root, "q")))
 		}
+		// the plugin root is given under some spelling of its path (literal, through a symbolic link onto its parent, with dot
+		// elements, relative): containment is about the directory, not about how its path was written
+		rootGiven := spell(root, filepath.Join(caseDir, "root-parent-link"), mix(*flagSeed, c.ID, "spell-root"))
 		before := snapTree(top)
-		mgr := plugin.NewCLIManager(dir.NewSysFS(root))
+		mgr := plugin.NewCLIManager(dir.NewSysFS(rootGiven))
 		ctx := context.Background()
 		obs := PNObs{Execs: [][]string{}, Changed: [][]string{}, ListOK: true}
 		var opErr error
@@ -326,13 +357,13 @@ func runPluginNames() int {
 				if line == "" {
 					continue
 				}
-				p := filepath.Clean(line)
-				if strings.HasPrefix(p, srcDir+string(filepath.Separator)) {
+				p := resolveSpelled(line)
+				if strings.HasPrefix(p, resolveSpelled(srcDir)+string(filepath.Separator)) {
 					// installing runs the SOURCE executable to read its metadata (judged by the spec: only for names that are not refused)
 					obs.Execs = append(obs.Execs, []string{"<install-source>"})
 					continue
 				}
-				if rel, err := filepath.Rel(top, p); err == nil && !strings.HasPrefix(rel, "..") {
+				if rel, err := filepath.Rel(resolveSpelled(top), p); err == nil && !strings.HasPrefix(rel, "..") {
 					obs.Execs = append(obs.Execs, splitRel(rel))
 				} else {
 					obs.Execs = append(obs.Execs, []string{"<outside-sandbox>", p})
